@@ -322,6 +322,8 @@ def _case(g, pre, h2):
     lab = get_labeling()
     if lab is not None:
         d["labeling"] = {"prefix": lab[0], "names": list(lab[1]), "insertion_order": list(lab[2])}
+        if len(lab) > 3:
+            d["labeling"]["generator"] = lab[3]
     return d
 
 
